@@ -111,7 +111,7 @@ PROPS = {
     },
     "C15": {
         "n": {"quick": 400, "thorough": 5000},
-        "judge": True, "needs_server": False, "shards": 8,
+        "judge": True, "diff_is_failure": True, "needs_server": False, "shards": 8,
         "trivial_outs": set(),
         "rule": "cases = histories of XADD (auto IDs with bursts, explicit ascending / equal / smaller / future / malformed IDs), XDEL, XTRIM, XRANGE/XREVRANGE/XREAD with bounds below, inside, between and above the stored IDs with and without COUNT, XLEN, DEL/RENAME, arity and non-bulk errors, on 4 stream keys + a string key, each ending with a dump (TYPE, XLEN, XRANGE - +, XINFO, XPENDING per group, KEYS, DBSIZE); one evaluation = one command's canonical reply compared between the ferrous server (fresh process per history, TCP) and the extracted Gallina model; the ID of XADD * is passed to the model as an oracle and checked for admissibility",
         "explanation": "theorems: stream invariant (sorted, ids <= last_id, atomics and length counter agree) over all histories; auto IDs exceed every earlier ID for every clock reading; refused XADD changes nothing; XRANGE/XREVRANGE/XREAD equal the filter of the present entries for all bounds (after the repair dc07967); XADD * rolls over / is refused only when no greater ID exists (fb507d0); XLEN = number of present entries; tie: differential run against the server + property oracle (BTreeMap reference driven by the implementation's replies)",
@@ -120,7 +120,7 @@ PROPS = {
     },
     "C16": {
         "n": {"quick": 400, "thorough": 5000},
-        "judge": True, "needs_server": False, "shards": 8,
+        "judge": True, "diff_is_failure": True, "needs_server": False, "shards": 8,
         "trivial_outs": set(),
         "rule": "cases = histories over 2 streams x 2 groups x 3 consumers: XGROUP CREATE/DESTROY/SETID/CREATECONSUMER/DELCONSUMER, XREADGROUP (> and explicit IDs, COUNT, NOACK, BLOCK, several keys), XACK (repeated, unknown IDs), XCLAIM (idle thresholds 0 / 200 ms / never, FORCE, JUSTID), XPENDING (summary, ranges, per consumer), XINFO, XADD/XDEL/XTRIM/DEL/RENAME in between, 450 ms sleeps for the idle thresholds, each ending with a dump of every group's pending state; one evaluation = one command's canonical reply compared between the ferrous server and the extracted Gallina model (idle times zeroed on both sides)",
         "explanation": "theorems: the four representations of the pending set agree over all histories of >-reads, XACK, XCLAIM, DELCONSUMER, CREATECONSUMER, DESTROY; > delivers in strictly increasing ID order, each entry once; XACK counts once; XPENDING summary equals the pending set; for every start position incl. $ and with NOACK (repairs 542e5a3, 18325a2); XPENDING total on inverted ranges (8b811fd); XGROUP CREATE failure atomicity (7f9490b); still refuted: explicit-ID read, SETID re-delivery, partial failure of a multi-key XREADGROUP",
